@@ -61,8 +61,21 @@ def cases(draw):
                 extra.append(s + " ")
     searches = []
     for _ in range(4):
-        kind = draw(st.sampled_from(["from-entity", "from-entity", "from-entity", "fresh", "concrete", "concrete-alias", "concrete-absent"]))
+        kind = draw(st.sampled_from(["from-entity", "from-entity", "from-entity", "fresh", "concrete", "concrete-alias", "concrete-absent",
+                                     "inseg-only"]))
         t, f = ents[draw(st.integers(0, len(ents) - 1))]
+        if kind == "inseg-only":
+            # a search whose ONLY search symbols are stars inside segments (no field equals '*'): it may match several entries
+            freek = [k for k in m.keys(t) if m.specs[(t, k)].free]
+            if not freek:
+                kind = "from-entity"
+            else:
+                g = dict(f)
+                for k in draw(st.lists(st.sampled_from(freek), min_size=1, max_size=2, unique=True)):
+                    v = g[k]
+                    g[k] = draw(st.sampled_from([v[:1] + "*", "*" + v[-1:], v[:1] + "*" + v[-1:], "x*", "*x*", "*-*", "*.*"]))
+                searches.append({"s": m.render(t, g), "labels": ["inseg-star-only"]})
+                continue
         if kind == "fresh":
             t, f = draw(gens.typed_fields(m, digits_dense=True))
         if kind in ("from-entity", "fresh"):
